@@ -17,6 +17,15 @@ CHECKS = {
  "C17": dict(cat="model_checking", ref="5/C17",
    tech="TLA+ spec Rtp.tla (DecodeOne/Loop); TLC exhaustive enumeration of packet streams cut at every length plus marker-like junk (MC_Rtp), each replayed on jt1078.Packet.Decode; trace validation of random streams (Trace_Rtp)",
    text="TLC checks LoopExact on the Rtp specification for every stream of up to MaxPkts packets (every data type 0..15, marks, M bit, payload lengths) at every cut length, and JunkClassified for marker-alphabet prefixes padded around the 16- and 30-byte thresholds; every (stream, cut) is emitted with the expected sequence of packets (all header fields, payload) and final class and replayed on the real decoder with a fresh Packet per step. Seeded random streams with payloads 0..950 and beyond, random cuts and random strings are decoded by the real code and validated by TLC."),
+ "C15": dict(cat="model_checking", ref="5/C15",
+   tech="TLA+ spec Attach.tla (Demux/Apply/Drain session machine); TLC exhaustive unit-level behaviours (MC_Attach) and all-cut-pairs segmentation model (MC_AttachSeg), every script/cut replayed on the real attachment connection loop via an in-memory net.Conn; TLC trace validation of recorded random sessions (Trace_Attach)",
+   text="TLC explores every behaviour of a terminal that announces files and sends 0x1211, any disjoint chunk split in any order with exact resends, interleaved files and early/late 0x1212 (names and alarm ids containing the chunk marker), checking CompleteIffAll, ControlAnswered, OneObsPerUnit and ReportExact on the specification, and proves segmentation independence over all cut pairs of a two-file script. Every terminal behaviour is replayed on the real connection.run under six segmentations and every 1-/2-cut of the script, comparing stage, reply bytes, completion and assembled content per unit. Random sessions (5 dialects, 2 header versions, sizes to 300 bytes, random segmentation) recorded per Read are stepped through the specification by TLC."),
+ "C16": dict(cat="model_checking", ref="5/C16",
+   tech="TLA+ operators Attach!MissSegments vs declarative MissExact; TLC exhaustive enumeration of all disjoint chunk sets (MC_Miss) replayed on Package.StatisticalMissSegments; 0x1212->0x9212 sessions from MC_Attach replayed over the connection with the wire bytes compared; Trace_Attach",
+   text="TLC checks MissExact (exactly the missing bytes, ascending, maximal, non-empty) for every file size up to the bound and every set of pairwise disjoint chunks, and replays each case on the exported range computation. The same situations are driven through the real connection from MC_Attach behaviours (0x1212 early -> retransmit list -> resend -> 0x1212 complete): the 0x9212 frame on the wire must equal the specification's bytes, and model.P0x9212.Parse must read the same ranges back."),
+ "C19": dict(cat="model_checking", ref="5/C19",
+   tech="TLA+ spec Path.tla (lexical resolution, Confined); TLC enumeration of all names up to MaxSegs segments and wire-limit '../' repetitions (MC_Path), one real session per name with the default file handler in a sandbox; TLC validation of recorded file-tree deltas for random byte names (Trace_Path)",
+   text="TLC classifies every name over {'..','.','','a','b c'} up to the segment bound (rooted or not) and '../'-repetitions to 255 bytes; for each the harness runs a complete real upload session (0x1210, 0x1211, chunk, 0x1212, close) with the default handler in a nested sandbox working directory holding decoy files and directories, then walks the tree: everything created or modified other than file.log must resolve strictly inside ./<phone>/, and plain names must be stored with the exact content. Random byte names (NUL, 0xFF, backslash, long) are validated the other way by Trace_Path!AllConfined/PlainStored."),
 }
 
 NA_REASON = "check not built yet (work in progress; see DESIGN.md section 10)"
